@@ -8,7 +8,7 @@ src = sys.argv[5] if len(sys.argv) > 5 else "/tmp/seed/out_%s/%s" % (pid.lower()
 dst = "/verif/seeded/%s-%s" % (pid, k)
 os.makedirs(dst, exist_ok=True)
 for f in os.listdir(src):
-    if f in ("patch.diff", "demo.rs", "notes.md"):
+    if f in ("patch.diff", "demo.rs", "notes.md", "confirm.json"):
         shutil.copy(os.path.join(src, f), dst)
 detected = dict(x.split("=", 1) for x in det.split(";") if x)
 meta = {
